@@ -808,3 +808,179 @@ Proof.
     assert (n_ssidx (s n) <? ss_index ss = false) as -> by (apply N.ltb_ge; lia).
     split; [exact HS | split; [exact HW | exact HR]].
 Qed.
+
+(* ---------- RemoveNodeData ---------- *)
+
+Lemma remove_node_wb_last : forall n l k,
+  wb_last (remove_node_wb n l) k =
+  if existsb (key_eqb k) (map (fun old => KSnapshot n (ss_index old)) l) then Some None
+  else if key_eqb k (KMaxIndex n) then Some None
+  else if key_eqb k (KBootstrap n) then Some None
+  else if key_eqb k (KState n) then Some None else None.
+Proof.
+  intros n l k. unfold remove_node_wb. rewrite wb_last_app. rewrite <- map_map with (g := WDel).
+  rewrite wb_last_dels. destruct (existsb _ _); auto.
+  cbn [wb_last wkey]. destruct (key_eqb k (KMaxIndex n)); auto. destruct (key_eqb k (KBootstrap n)); auto.
+Qed.
+
+Lemma remove_node_wb_other : forall n l k, key_node k <> n -> wb_last (remove_node_wb n l) k = None.
+Proof.
+  intros n l k H. rewrite remove_node_wb_last.
+  assert (forall k', key_node k' = n -> key_eqb k k' = false) as HK.
+  { intros k' E. apply key_eqb_neq. intros ->. contradiction. }
+  rewrite !HK by (unfold key_node; cbn; apply nid_eta).
+  destruct (existsb _ _) eqn:E; auto. apply existsb_snap_keys in E. destruct E as (old & _ & ->).
+  exfalso. apply H. unfold key_node; cbn. apply nid_eta.
+Qed.
+
+Lemma remove_node_data_R : forall d s n, R d s ->
+  exists d', plain_step d (ORemNode n) = Some d' /\ R d' (spec_step s (ORemNode n)).
+Proof.
+  intros d s n (HS & HW & HR). pose proof (HR n) as Hn. pose proof max_index_u64 as HU.
+  destruct (list_snapshots_spec (p_kv d) n HS HW) as (l & HL & Hl).
+  cbn [plain_step]. unfold p_remove_node_data. rewrite HL. eexists. split; [reflexivity|].
+  unfold p_remove_entries_to. cbn [p_kv p_cache spec_step].
+  set (m1 := kv_commit (p_kv d) (remove_node_wb n l)).
+  assert (HS1 : sorted m1) by now apply sorted_commit.
+  assert (HW1 : WT m1).
+  { apply WT_commit; auto. intros k v HI. unfold remove_node_wb in HI. apply in_app_or in HI.
+    destruct HI as [HI|HI]; [cbn in HI; intuition discriminate|].
+    apply in_map_iff in HI. destruct HI as (x & X & _). discriminate. }
+  assert (HG : forall k, kv_get m1 k = match wb_last (remove_node_wb n l) k with Some r => r | None => kv_get (p_kv d) k end)
+    by (intros; now apply get_commit).
+  split; [now apply sorted_del_range | split; [now apply WT_del_range|]].
+  intros n'. cbn [p_kv p_cache]. destruct (nid_eqb n' n) eqn:EN.
+  - apply nid_eqb_eq in EN. subst n'. rewrite supd_same.
+    assert (HO : forall k, (forall x, k <> KEntry n x) ->
+              kv_get (kv_del_range m1 (KEntry n 0) (KEntry n u64max)) k = kv_get m1 k).
+    { intros k Hk. apply del_range_other; auto. }
+    assert (HSN : forall i, kv_get m1 (KSnapshot n i) = None).
+    { intros i. rewrite HG, remove_node_wb_last.
+      destruct (existsb _ _) eqn:E; auto.
+      rewrite !key_eqb_neq by (intros X; ktags; inversion X).
+      destruct (kv_get (p_kv d) (KSnapshot n i)) eqn:G; auto. exfalso.
+      destruct (HW _ _ G) as (_ & W & _). destruct (W eq_refl) as (old & -> & Wi). cbn in Wi.
+      destruct (N.le_gt_cases i u64max) as [X|X].
+      - assert (In old l) as HI by (apply Hl; rewrite Wi; auto).
+        apply not_true_iff_false in E. apply E. apply existsb_snap_keys. exists old. now rewrite Wi.
+      - rewrite (r_snap_hi _ _ _ _ Hn i) in G; [discriminate|]. pose proof (r_ssb _ _ _ _ Hn). lia. }
+    assert (cs_remove_node_data (cs_set_max_index (p_cache d) n 0) n n = mkC None (Some 0) None None) as ->.
+    { unfold cs_remove_node_data, cs_set_max_index, cupd. cbv beta. now rewrite !nid_eqb_refl. }
+    constructor; cbn [empty_node n_marker n_ents n_st n_ss n_mterm c_state c_max c_snap].
+    + exact I.
+    + intros e [].
+    + right. split; [|reflexivity]. rewrite HO by (intros x X; ktags; inversion X).
+      rewrite HG, remove_node_wb_last. destruct (existsb _ _); auto. now rewrite key_eqb_refl.
+    + intros v X. inversion X. reflexivity.
+    + rewrite HO by (intros x X; ktags; inversion X). rewrite HG, remove_node_wb_last.
+      destruct (existsb _ _); auto.
+      rewrite !(key_eqb_neq (KState n)) by (intros X; ktags; inversion X). now rewrite key_eqb_refl.
+    + intros st X. discriminate.
+    + intros i _. rewrite HO by (intros x X; ktags; inversion X). apply HSN.
+    + intros i. rewrite HO by (intros x X; ktags; inversion X). apply HSN.
+    + intros v X. discriminate.
+    + unfold n_ssidx, max_index. cbn. lia.
+    + unfold n_last, max_index, nlen. cbn. lia.
+  - assert (n' <> n) as HN by (intros ->; rewrite nid_eqb_refl in EN; discriminate).
+    rewrite supd_other by auto.
+    assert (cs_remove_node_data (cs_set_max_index (p_cache d) n 0) n n' = p_cache d n') as ->.
+    { unfold cs_remove_node_data, cs_set_max_index, cupd. cbv beta. now rewrite !EN. }
+    eapply Rn_frame; [apply HR|]. intros k Hk.
+    rewrite del_range_other; auto.
+    + rewrite HG, remove_node_wb_other; auto. rewrite Hk. auto.
+    + intros x _ X. subst k. apply HN. rewrite <- Hk. unfold key_node, KEntry. cbn. apply nid_eta.
+Qed.
+
+Lemma remove_node_wb_nodes : forall n l o, In o (remove_node_wb n l) -> key_node (wkey o) = n.
+Proof.
+  intros n l o HI. unfold remove_node_wb in HI. apply in_app_or in HI. destruct HI as [HI|HI].
+  - destruct HI as [<-|[<-|[<-|[]]]]; unfold key_node; cbn; apply nid_eta.
+  - apply in_map_iff in HI. destruct HI as (x & <- & _). unfold key_node; cbn; apply nid_eta.
+Qed.
+
+(* ---------- ImportSnapshot (between two reopens) ---------- *)
+
+Lemma import_snapshot_R : forall d s n ss, R d s -> spec_wf_op s (OImport n ss) = true ->
+  exists d', plain_step d (OImport n ss) = Some d' /\ R d' (spec_step s (OImport n ss)).
+Proof.
+  intros d s n ss (HS & HW & HR) Hwf. cbn [spec_wf_op] in Hwf. rewrite !andb_true_iff in Hwf.
+  destruct Hwf as ((W1 & W2) & W3). apply negb_true_iff in W1. apply N.ltb_lt in W2.
+  assert (0 < ss_index ss) as Hpos by (unfold ss_emptyb in W1; apply N.eqb_neq in W1; lia).
+  pose proof (HR n) as Hn. pose proof max_index_u64 as HU.
+  destruct (list_snapshots_spec (p_kv d) n HS HW) as (l & HL & Hl).
+  cbn [plain_step]. unfold p_import_snapshot. cbn [p_reopen p_kv p_cache]. rewrite HL.
+  rewrite (save_snapshot_wb_some _ _ _ l HL W1).
+  eexists. split; [reflexivity|].
+  set (sel := filter (fun cur => ss_index ss <=? ss_index cur) l).
+  set (w2 := _ ++ [WPut (KSnapshot n (ss_index ss)) _]).
+  set (st' := mkSt (ss_term ss) 0 (ss_index ss)).
+  set (w := (remove_node_wb n sel ++ [WPut (KBootstrap n) VBoot; WPut (KState n) (VState st')])
+            ++ w2 ++ [WPut (KMaxIndex n) (VMax (ss_index ss))]).
+  destruct (snap_wb_effect (p_kv d) n ss l HS HW HL Hl ltac:(lia)) as (E1 & E2 & E3).
+  fold w2 in E1, E2, E3.
+  assert (HG : forall k, kv_get (kv_commit (p_kv d) w) k = match wb_last w k with Some r => r | None => kv_get (p_kv d) k end)
+    by (intros; now apply get_commit).
+  cbn [p_reopen p_kv p_cache spec_step].
+  split; [now apply sorted_commit | split].
+  { apply WT_commit; auto. intros k v HI. subst w w2. unfold remove_node_wb in HI.
+    repeat (apply in_app_or in HI; destruct HI as [HI|HI]);
+      try (apply in_map_iff in HI; destruct HI as (x & X & _); discriminate);
+      cbn in HI; repeat (destruct HI as [HI|HI]); try contradiction; try discriminate;
+      inversion HI; subst; unfold wt; ktags; cbn; repeat split; intros X; try discriminate; eauto. }
+  intros n'. destruct (nid_eqb n' n) eqn:EN.
+  - apply nid_eqb_eq in EN. subst n'. rewrite supd_same.
+    (* the batch on the keys of the node *)
+    assert (LM : wb_last w (KMaxIndex n) = Some (Some (VMax (ss_index ss)))).
+    { subst w. rewrite !wb_last_app. cbn [wb_last wkey]. now rewrite key_eqb_refl. }
+    assert (LS : wb_last w (KState n) = Some (Some (VState st'))).
+    { subst w. rewrite !wb_last_app. cbn [wb_last wkey].
+      rewrite (key_eqb_neq (KState n) (KMaxIndex n)) by (intros X; ktags; inversion X).
+      rewrite E3 by (intros i _ X; ktags; inversion X). now rewrite key_eqb_refl. }
+    assert (LK : forall i, wb_last w (KSnapshot n i) =
+              match wb_last w2 (KSnapshot n i) with Some r => Some r
+              | None => wb_last (remove_node_wb n sel) (KSnapshot n i) end).
+    { intros i. subst w. rewrite !wb_last_app. cbn [wb_last wkey].
+      rewrite !(key_eqb_neq (KSnapshot n i)) by (intros X; ktags; inversion X).
+      destruct (wb_last w2 (KSnapshot n i)); auto. }
+    assert (SN : forall i, i <> ss_index ss -> kv_get (kv_commit (p_kv d) w) (KSnapshot n i) = None).
+    { intros i Hi. rewrite HG, LK. destruct (N.lt_ge_cases i (ss_index ss)) as [X|X].
+      - destruct (E2 i X) as [->|[-> G]]; auto.
+        rewrite remove_node_wb_last. destruct (existsb _ _); auto.
+      - rewrite E3 by (intros j Hj Y; apply KSnapshot_inj in Y; lia).
+        rewrite remove_node_wb_last. destruct (existsb _ _) eqn:E; auto.
+        rewrite !key_eqb_neq by (intros Y; ktags; inversion Y).
+        destruct (kv_get (p_kv d) (KSnapshot n i)) eqn:G; auto. exfalso.
+        destruct (HW _ _ G) as (_ & W & _). destruct (W eq_refl) as (old & -> & Wi). cbn in Wi.
+        destruct (N.le_gt_cases i u64max) as [Y|Y].
+        + assert (In old l) as HI by (apply Hl; rewrite Wi; auto).
+          apply not_true_iff_false in E. apply E. apply existsb_snap_keys. exists old. split; [|now rewrite Wi].
+          apply filter_In. split; auto. apply N.leb_le. lia.
+        + rewrite (r_snap_hi _ _ _ _ Hn i) in G; [discriminate|]. pose proof (r_ssb _ _ _ _ Hn). lia. }
+    constructor; cbn [cnode_empty n_marker n_ents n_st n_ss n_mterm c_state c_max c_snap].
+    + exact I.
+    + intros e [].
+    + left. rewrite HG, LM. unfold n_last, nlen. cbn [n_marker n_ents length]. f_equal. f_equal. lia.
+    + intros v X. discriminate.
+    + rewrite HG, LS. reflexivity.
+    + intros v X. discriminate.
+    + intros i Hi. apply SN. unfold n_ssidx in Hi. cbn [n_ss] in Hi. lia.
+    + split; auto. rewrite HG, LK, E1. reflexivity.
+    + intros v X. discriminate.
+    + unfold n_ssidx; cbn [n_ss]; lia.
+    + unfold n_last, nlen; cbn [n_marker n_ents length]; lia.
+  - assert (n' <> n) as HN by (intros ->; rewrite nid_eqb_refl in EN; discriminate).
+    rewrite supd_other by auto. eapply Rn_cache_empty. eapply Rn_frame; [apply HR|]. intros k Hk.
+    rewrite HG. rewrite wb_last_none; auto.
+    intros o HI X. subst k. apply HN. rewrite <- Hk. clear - HI.
+    assert (KN : forall k', key_node k' = n -> (fst n, snd n) = n -> True) by auto.
+    subst w w2. apply in_app_or in HI. destruct HI as [HI|HI].
+    + apply in_app_or in HI. destruct HI as [HI|HI].
+      * now apply remove_node_wb_nodes in HI.
+      * destruct HI as [<-|[<-|[]]]; unfold key_node; cbn; apply nid_eta.
+    + apply in_app_or in HI. destruct HI as [HI|HI].
+      * apply in_app_or in HI. destruct HI as [HI|HI].
+        -- apply in_map_iff in HI. destruct HI as (x & <- & HI).
+           apply in_map_iff in HI. destruct HI as (y & <- & _). unfold key_node; cbn; apply nid_eta.
+        -- destruct HI as [<-|[]]. unfold key_node; cbn; apply nid_eta.
+      * destruct HI as [<-|[]]. unfold key_node; cbn; apply nid_eta.
+Qed.
